@@ -293,7 +293,7 @@ func c01LoaderCycles(c *core.Check) {
 // allocation, or in every caller, dominating the call.
 func c01BoundedRepeats(c *core.Check) {
 	p := c.Prog
-	r := c.Rule("R28", "repetition counts are capped before they size an allocation: in svg and images, every make whose size derives from a float converted to an integer is dominated by a comparison with a constant, in the function itself or at each of its call sites", 3)
+	r := c.Rule("R28", "repetition counts are capped before they size an allocation: in svg and images, every make whose size derives from a float converted to an integer is dominated by a comparison with a constant, in the function itself or at each of its call sites", 1)
 	fromFloat := func(v ssa.Value) bool {
 		return arithDerives(v, func(v ssa.Value) bool {
 			cv, ok := v.(*ssa.Convert)
